@@ -1732,6 +1732,7 @@ def normalize_tree(tree, foreign=None):
         n += normalize2.forward_lazy_temps(tree)
         n += normalize2.split_chain_loops(tree)
     n += normalize2.project_namedtuples(tree)
+    n += normalize2.forward_single_cell(tree)
     normalize2.propagate_copies(tree)
     tree = Canon(consts).visit(tree)
     tree = Unroll().visit(tree)
